@@ -218,6 +218,27 @@ class ConcApi(BaseApi):
         exp = self.fmod(x, y)
         self.check(oid, abs(got - exp) <= Fraction(self.rtol) * abs(y) * max(1, abs(q)))
 
+    def instantiate(self, k):
+        pass
+
+    def feasible(self):
+        return True
+
+    def unreachable(self, oid, note=""):
+        self.check(oid, False, note)
+
+    def use_lemma(self, name, *args):
+        pass
+
+    def sorted_facts(self, arr, extra=()):
+        return 0
+
+    def check_sum(self, oid, value, lo, hi, termfn):
+        s = 0
+        for i in range(lo, hi):
+            s = s + self.num(termfn(i))
+        self.check(oid, self.close(value, s) if s != 0 else abs(float(value)) < 1e-300)
+
     def lemma(self, name, fact):
         self.lemmas += 1
         if not self.truth(fact):
@@ -283,6 +304,9 @@ class ConcApi(BaseApi):
 
     def arr_get(self, a, k):
         return a[k]
+
+    def sel(self, a, k):
+        return a[k] if 0 <= k < len(a) else 0
 
     def sum_range(self, n, f):
         s = 0
